@@ -136,8 +136,9 @@ theorem serve_preamble : servePreamble = servePreambleModelled := by decide +ker
 
 /-! ## (d) rate limit -/
 
-/-- the limiter block in the tree is the text `Cfg.RL.step` was written for (its mutex aside, see `lifecycle_shape`) -/
-theorem limiter_shape : limiter = limiterModelled := by decide +kernel
+/-! The text of the limiter block is compared with the text `Cfg.RL.step` was written for in `Properties/C19Pins.lean`
+(`limiter_shape`): a difference there is not an obligation of the property but the trigger for the deep run of the limiter
+correspondence (a rewrite that keeps the behaviour keeps the agreement, whatever it does to the text). -/
 
 /-- **per accounting window**: take any arrival sequence, any start state, any address `a`, and any run `w` of
 consecutive requests of `a` in which no request after the first opens a new window (so `w` lies inside one window of
